@@ -186,6 +186,7 @@ def sig_stale_after_expiry(v: dict) -> bool:
 
 
 SIGNATURES: Dict[str, Callable[[dict], bool]] = {
+    "thread_schedule": lambda v: v.get("source") == "thread-schedule",
     "always": lambda v: True,
     "stale_after_expiry": sig_stale_after_expiry,
     "sync_burst_cut": sig_sync_burst_cut,
